@@ -153,6 +153,10 @@ package bgp
 
 // from C04/C05: value is a view of exactly Length octets inside data; Len() is header + Length
 //@ func (*PathAttribute).DecodeFromBytes
+//@   tag C05 C04 C06
+// from C06 "malformed UPDATEs are contained" / RFC 4271 4.3: an optional non-transitive attribute with the Partial bit
+// set is malformed - the check that says so is alive (it can be reached, and only for an optional attribute)
+//@   at-call fmt.Sprintf("optional non-transitive attribute reachable flags & BGP_ATTR_FLAG_OPTIONAL != 0
 //@   modifies p.*
 //@   ensures err == nil ==> len(value) == int(p.Length) && p.Len() <= len(data)
 //@   ensures err == nil ==> p.Flags == data[0] && p.Type == data[1]
